@@ -2,10 +2,14 @@
 package c07
 
 import (
+	"bufio"
 	"bytes"
 	"errors"
 	"fmt"
 	"io"
+	"os"
+	"path/filepath"
+	"strings"
 	"sync"
 	"sync/atomic"
 	"testing"
@@ -34,6 +38,51 @@ type Case struct {
 	// Std > 0: the source is a *bytes.Reader (seekable, WriterTo, ReaderAt) holding Std-1 unrelated bytes in
 	// front of the input and already advanced past them, as when an image is embedded in a container
 	Std int `json:"std_reader_prefix_plus_1,omitempty"`
+	// StdKind selects the dynamic type of that source: bytes.Reader (default), bytes.Buffer, strings.Reader,
+	// bufio.Reader, os.File, io.SectionReader - loaders must not behave differently for any of them
+	StdKind string `json:"std_kind,omitempty"`
+}
+
+var stdKinds = []string{"bytes.Reader", "bytes.Buffer", "strings.Reader", "bufio.Reader", "os.File", "io.SectionReader"}
+
+// stdSource builds a standard-library reader holding prefix+data, positioned just after the prefix; remaining()
+// reports how many input bytes it has not handed out yet (-1 if unknown).
+func stdSource(kind string, prefix int, data []byte) (r io.Reader, remaining func() int, cleanup func()) {
+	all := append(bytes.Repeat([]byte("CONTAINER-HEADER "), prefix/17+1)[:prefix], data...)
+	cleanup = func() {}
+	switch kind {
+	case "bytes.Buffer":
+		b := bytes.NewBuffer(all)
+		b.Next(prefix)
+		return b, b.Len, cleanup
+	case "strings.Reader":
+		sr := strings.NewReader(string(all))
+		_, _ = sr.Seek(int64(prefix), io.SeekStart)
+		return sr, sr.Len, cleanup
+	case "bufio.Reader":
+		br := bufio.NewReaderSize(bytes.NewReader(all), 64)
+		_, _ = br.Discard(prefix)
+		return br, func() int { return -1 }, cleanup
+	case "os.File":
+		dir := filepath.Join(ev.Root(), "out", "run", "C07")
+		_ = os.MkdirAll(dir, 0o755)
+		f, err := os.CreateTemp(dir, "src-*")
+		if err != nil {
+			br := bytes.NewReader(all)
+			_, _ = br.Seek(int64(prefix), io.SeekStart)
+			return br, br.Len, cleanup
+		}
+		_, _ = f.Write(all)
+		_, _ = f.Seek(int64(prefix), io.SeekStart)
+		return f, func() int { return -1 }, func() { f.Close(); os.Remove(f.Name()) }
+	case "io.SectionReader":
+		sr := io.NewSectionReader(bytes.NewReader(all), 0, int64(len(all)))
+		_, _ = sr.Seek(int64(prefix), io.SeekStart)
+		return sr, func() int { return -1 }, cleanup
+	}
+	br := bytes.NewReader(all)
+	_, _ = br.Seek(int64(prefix), io.SeekStart)
+	return br, br.Len, cleanup
 }
 
 func drain(r io.Reader, sizes []int, limit int) (out []byte, err error, stalled bool) {
@@ -78,11 +127,13 @@ func check(c Case) (kind, what string, nt bool) {
 	s := &src.Source{Data: c.Data, FaultAt: c.FaultAt, FaultWithData: c.FaultWithData, Sizes: c.Sizes, DataWithEOF: c.DataWithEOF}
 	var o ld.Outcome
 	if c.Std > 0 {
-		all := append(bytes.Repeat([]byte("CONTAINER-HEADER "), c.Std/17+1)[:c.Std-1], c.Data...)
-		br := bytes.NewReader(all)
-		_, _ = br.Seek(int64(c.Std-1), io.SeekStart)
-		o = ld.Run(c.Loader, br)
-		s.Pos = int64(len(c.Data)) - int64(br.Len())
+		r, remaining, cleanup := stdSource(c.StdKind, c.Std-1, c.Data)
+		defer cleanup()
+		o = ld.Run(c.Loader, r)
+		s.Pos = -1
+		if n := remaining(); n >= 0 {
+			s.Pos = int64(len(c.Data)) - int64(n)
+		}
 	} else {
 		o = ld.Run(c.Loader, s)
 	}
@@ -271,7 +322,7 @@ func TestC07(t *testing.T) {
 						dr := drains[(h/7+uint64(si))%uint64(len(drains))]
 						// the same truncated input from a seekable standard reader positioned after a prefix
 						if h%4 == 0 {
-							run(Case{Seed: in.name, Data: in.data[:p], FaultAt: -1, Drain: dr, Loader: loader, Std: 1 + int(h/4%3)*27}, in.in[p])
+							run(Case{Seed: in.name, Data: in.data[:p], FaultAt: -1, Drain: dr, Loader: loader, Std: 1 + int(h/4%3)*27, StdKind: stdKinds[int(h/12)%len(stdKinds)]}, in.in[p])
 						}
 						// truncation at p
 						run(Case{Seed: in.name, Data: in.data[:p], FaultAt: -1, Sizes: sc, DataWithEOF: h%3 == 0, Drain: dr, Loader: loader}, in.in[p])
@@ -312,6 +363,7 @@ func TestC07(t *testing.T) {
 		}
 		if c.FaultAt < 0 && rapid.IntRange(0, 3).Draw(rt, "stdreader") == 0 {
 			c.Std = 1 + rapid.IntRange(0, 100).Draw(rt, "prefix")
+			c.StdKind = rapid.SampledFrom(stdKinds).Draw(rt, "stdkind")
 		}
 		c.DataWithEOF = rapid.Bool().Draw(rt, "dataeof")
 		c.Drain = rapid.SliceOfN(rapid.SampledFrom([]int{1, 2, 3, 100, 4096, 32768}), 1, 4).Draw(rt, "drain")
